@@ -52,6 +52,7 @@ func init() {
 	register("C05", "exploration", 4, 16, 4, 40, 8*time.Minute, 60*time.Minute, eng.RunSoakAttribution)
 	register("C06", "exploration", 4, 16, 100, 2000, 5*time.Minute, 40*time.Minute, eng.RunPerNode)
 	register("C07", "fault_enumeration", 4, 16, 20, 300, 8*time.Minute, 60*time.Minute, eng.RunFaults)
+	register("C08", "exploration", 4, 16, 50, 1000, 8*time.Minute, 60*time.Minute, eng.RunCtxEnd)
 	register("C09", "exploration", 4, 16, 40, 500, 6*time.Minute, 40*time.Minute, eng.RunUsable)
 	register("C11", "exploration", 2, 8, 300, 5000, 4*time.Minute, 30*time.Minute, eng.RunCorr)
 	register("C19", "exploration", 2, 8, 1000, 100000, 5*time.Minute, 30*time.Minute, eng.RunSorters)
